@@ -43,6 +43,7 @@ import (
 func init() { logger.InitNop() }
 
 type hcExchange struct {
+	BKill      bool        `json:"bkill,omitempty"` // the backend closes the (kept-alive, already used) connection this request arrives on without answering, once
 	Method     string      `json:"method"`
 	Path       string      `json:"path"`
 	Query      string      `json:"query"`
@@ -57,21 +58,21 @@ type hcExchange struct {
 	GapUs      int         `json:"gap_us"`
 	Inc        bool        `json:"incompressible"`
 	// backend script
-	Status   int         `json:"status"`
-	RHdr     [][2]string `json:"rhdr"`
-	RBodyLen int         `json:"rbody_len"`
-	RChunked bool        `json:"rchunked"`
-	RCloseDelim bool     `json:"rclose_delim"` // the backend answers without Content-Length or chunking and ends the body by closing the connection (HTTP/1.0 style)
-	RLastCoalesced bool  `json:"rlast_coalesced"` // chunked backend body: the last data piece is sent together with the terminating chunk
-	RGzip    bool        `json:"rgzip"`
-	RGzipBad int         `json:"rgzip_bad"` // with RGzip: 1 = gzip stream cut short, 2 = wrong CRC trailer (the declared length matches the bytes sent)
-	RShort   int         `json:"rshort"` // >0: declare RBodyLen, send RShort bytes fewer, then close
-	RReset   bool        `json:"rreset"` // reset the backend connection in the middle of the body
-	RInc     bool        `json:"rincompressible"`
-	Expect100 bool       `json:"expect_100"` // the client sends "Expect: 100-continue" and holds the body back until an interim 100 (or, like real clients, for 1 s)
-	ReqGzip   bool       `json:"req_gzip"`   // C03: the client's body is gzip-compressed and labelled Content-Encoding: gzip
-	ReqShort  int        `json:"req_short"`  // C07: the client sends this many bytes fewer than its framing promises (declared length, or the chunk stream incl. its terminator), then half-closes
-	FailFirst int        `json:"fail_first"` // the first n attempts are answered 502 (a failure code) by the backend
+	Status         int         `json:"status"`
+	RHdr           [][2]string `json:"rhdr"`
+	RBodyLen       int         `json:"rbody_len"`
+	RChunked       bool        `json:"rchunked"`
+	RCloseDelim    bool        `json:"rclose_delim"`    // the backend answers without Content-Length or chunking and ends the body by closing the connection (HTTP/1.0 style)
+	RLastCoalesced bool        `json:"rlast_coalesced"` // chunked backend body: the last data piece is sent together with the terminating chunk
+	RGzip          bool        `json:"rgzip"`
+	RGzipBad       int         `json:"rgzip_bad"` // with RGzip: 1 = gzip stream cut short, 2 = wrong CRC trailer (the declared length matches the bytes sent)
+	RShort         int         `json:"rshort"`    // >0: declare RBodyLen, send RShort bytes fewer, then close
+	RReset         bool        `json:"rreset"`    // reset the backend connection in the middle of the body
+	RInc           bool        `json:"rincompressible"`
+	Expect100      bool        `json:"expect_100"` // the client sends "Expect: 100-continue" and holds the body back until an interim 100 (or, like real clients, for 1 s)
+	ReqGzip        bool        `json:"req_gzip"`   // C03: the client's body is gzip-compressed and labelled Content-Encoding: gzip
+	ReqShort       int         `json:"req_short"`  // C07: the client sends this many bytes fewer than its framing promises (declared length, or the chunk stream incl. its terminator), then half-closes
+	FailFirst      int         `json:"fail_first"` // the first n attempts are answered 502 (a failure code) by the backend
 }
 
 type hcClient struct {
@@ -101,10 +102,10 @@ type hcScenario struct {
 	// C03 only: a mirror pool (requests carrying "X-Mirror: 1" are copied to a
 	// second backend, which is healthy, slow, resetting, answering big or down)
 	PoolTimeout string `json:"pool_timeout"` // pool `timeout` (a value that never fires for a healthy backend, e.g. "10m")
-	Mirror string `json:"mirror"` // "", ok, slow, reset, big, down
+	Mirror      string `json:"mirror"`       // "", ok, slow, reset, big, down
 	// C03 only: the pool's server list comes from the service registry (delivered
 	// after the pool exists, as its registry watcher does); ip4 and host forms only
-	Discovered bool `json:"discovered"`
+	Discovered bool      `json:"discovered"`
 	CacheSize  int       `json:"cache_size"`
 	SplitPaths bool      `json:"split_paths"`
 	HdrPath    bool      `json:"hdr_path"` // with SplitPaths: the /up entry also requires the header "X-Small: 1" (requests without it fall through to the prefix entry)
@@ -177,16 +178,16 @@ func hcGunzip(b []byte) ([]byte, error) {
 
 type hcSeen struct {
 	attempts [][]byte // request body seen by each attempt
-	count   int
-	method  string
-	path    string
-	rawPath string // the path as it stood on the request line (before any decoding)
-	query   string
-	host    string
-	hdr     http.Header
-	body    []byte
-	bodyErr error
-	te      []string
+	count    int
+	method   string
+	path     string
+	rawPath  string // the path as it stood on the request line (before any decoding)
+	query    string
+	host     string
+	hdr      http.Header
+	body     []byte
+	bodyErr  error
+	te       []string
 }
 
 type hcResp struct {
@@ -219,6 +220,8 @@ type hcChain struct {
 	pipe     *pipeline.Pipeline
 	mux      *mux
 	seen     map[string]*hcSeen
+	killed   map[string][]byte // exchange id -> body the backend had read when it closed the connection (BKill)
+	connUses map[string]int    // backend side: requests served per connection (remote address)
 	script   map[string]*hcExchange
 	backHost string
 	backAddr string
@@ -367,7 +370,7 @@ func (c *hcChain) hotUpdate(lim hcLimits) error {
 }
 
 func hcNewChain(r *sim.Run, sc *hcScenario) (*hcChain, error) {
-	c := &hcChain{r: r, sc: sc, seen: map[string]*hcSeen{}, script: map[string]*hcExchange{}}
+	c := &hcChain{r: r, sc: sc, seen: map[string]*hcSeen{}, script: map[string]*hcExchange{}, killed: map[string][]byte{}, connUses: map[string]int{}}
 	proxy.HCTrack()
 	c.net = simnet.New()
 	simnet.SetDefault(c.net)
@@ -493,6 +496,23 @@ func (c *hcChain) close() {
 func (c *hcChain) backendHandler(w http.ResponseWriter, req *http.Request) {
 	id := req.Header.Get("X-Verif-Id")
 	body, berr := io.ReadAll(req.Body)
+	if kx := c.script[id]; kx != nil && kx.BKill {
+		if _, done := c.killed[id]; !done && c.connUses[req.RemoteAddr] > 0 {
+			// a kept-alive connection that has served a request before is closed without
+			// an answer: the gateway's HTTP client may send the request again on a new
+			// connection if it considers it replayable, or fail the call
+			if hj, ok := w.(http.Hijacker); ok {
+				if conn, _, err := hj.Hijack(); err == nil {
+					c.killed[id] = body
+					c.r.Fault("backend.closes_reused_connection_without_answer")
+					c.r.Eventf("backend got %s body=%d on a reused connection and closes it without answering", id, len(body))
+					conn.Close()
+					return
+				}
+			}
+		}
+	}
+	c.connUses[req.RemoteAddr]++
 	s := c.seen[id]
 	if s == nil {
 		s = &hcSeen{}
